@@ -164,15 +164,27 @@ class Exec:
             # not change what is simulated next
             res = sim.get_result()
             if not isinstance(res.value, Exception):
+                from simkit import fnlib
+
+                if op.get("interrupt_at") is not None:
+                    # ... and interrupts the (slow) view computation half-way (Ctrl-C)
+                    fnlib.TRIP[0] = int(op["interrupt_at"])
                 try:
                     _ = res.value.variables
                     _ = res.value.fluxes
                     if op.get("more"):
                         _ = res.value.get_right_hand_side()
                         _ = res.value.get_producers(ref.names[0], scaled=True)
+                        _ = res.value.get_consumers(ref.names[-1], scaled=True)
+                except fnlib.SimInterrupt:
+                    self.counters["fault_fired:view_read_interrupted"] += 1
+                    self.trace.add("read_views", "interrupted")
                 except Exception as e:  # noqa: BLE001
+                    fnlib.TRIP[0] = None
                     self.trace.add("read_views", "exc", type(e).__name__)
                     return
+                finally:
+                    fnlib.TRIP[0] = None
             self.counters["read_views_between_segments"] += 1
             if self.ctx == "param":
                 self.counters["probe:views_read_between_parameter_change_and_next_segment"] += 1
@@ -767,7 +779,11 @@ class Gen:
         if kind in ("clear", "get_result"):
             return {"op": kind}
         if kind == "read_views":
-            return {"op": kind, "more": r.random() < 0.4}
+            op = {"op": kind, "more": r.random() < 0.4}
+            if r.random() < 0.3:
+                op["more"] = True
+                op["interrupt_at"] = r.choice([0, 1, 2, 3, 5, 8, 12, 17, 23, 30, 40])
+            return op
         raise HarnessError(kind)
 
 
